@@ -11,7 +11,9 @@ import (
 	"verif/checker/ssax"
 )
 
-func init() { Registry["C15"] = Spec{Run: runC15, Packages: []string{"txtar", "cmd/txtar-x", "cmd/txtar-c"}} }
+func init() {
+	Registry["C15"] = Spec{Run: runC15, Packages: []string{"txtar", "cmd/txtar-x", "cmd/txtar-c"}}
+}
 
 func runC15(ctx *core.Ctx) {
 	ctx.Trusted = append(ctx.Trusted, "go/types, go/ssa", "semantics of filepath.Clean/Join/IsAbs/IsLocal and of os.OpenFile flags (O_EXCL|O_CREATE never opens an existing file)")
@@ -457,7 +459,9 @@ func osFlag(p *core.Prog, name string) int64 {
 	if pk == nil {
 		return 0
 	}
-	c, ok := pk.Types.Scope().Lookup(name).(interface{ Val() interface{ String() string } })
+	c, ok := pk.Types.Scope().Lookup(name).(interface {
+		Val() interface{ String() string }
+	})
 	_ = c
 	_ = ok
 	obj := pk.Types.Scope().Lookup(name)
